@@ -857,13 +857,13 @@ def run_retention(shard, ctx, rng):
         decoders.append((name, f, cls))
     rcd = D.FORMATS["readcd"]
     streams = [d + (False,) for d in decoders + [("sense", None, None)]] + [d + (True,) for d in decoders + [("sense", None, None)]]
-    # a disc read for its sub-channel only (16 bytes of formatted Q per sector, every frame with a good CRC and another content)
+    # a disc read for its sub-channel (sector header + 16 bytes of formatted Q per sector, every frame with a good CRC and another content)
     streams.append(("readcd.q_subchannel_only", rcd, rcd.lib_cls(), "q"))
     for name, f, cls, hostile in streams:
         bufs = []
         for i in range(N + 60):
             if hostile == "q":
-                v = f.gen(rng, ("layout", (1, 0, 0, 2), 40))
+                v = f.gen(rng, ("layout", (2, 0x04, 0, 2), 40))  # (the four-byte sector header and the sixteen bytes of Q)
                 bufs.append((f.encode(v), f.decode_kwargs(v)))
                 continue
             if f is None:
